@@ -248,3 +248,55 @@ def compatible(*kinds):
     """basic/extended notations may not be mixed; 'both' goes with either."""
     ks = set(k for k in kinds if k != "both")
     return len(ks) <= 1
+
+
+# ------------------------------------------------------------------------------------------------
+# truncated forms (ISO 8601:2000 section 5.2.1.3 / 5.2.2.3 / 5.2.3.3 / 5.3.1.4 as the library documents them)
+# name -> (tokens, notation kind, truncated properties spelled)
+# ------------------------------------------------------------------------------------------------
+def truncated_date_forms():
+    D2, D3 = lit("--"), lit("---")
+    W = lit("W")
+    return {
+        "b_-YYMM": ([_D, "YY", "MM"], "basic", ("yoc", "month")),
+        "b_-YY": ([_D, "YY"], "basic", ("yoc",)),
+        "b_--MMDD": ([D2, "MM", "DD"], "basic", ("month", "day")),
+        "b_--MM": ([D2, "MM"], "basic", ("month",)),
+        "b_---DD": ([D3, "DD"], "basic", ("day",)),
+        "b_YYMMDD": (["YY", "MM", "DD"], "basic", ("yoc", "month", "day")),
+        "b_YYDDD": (["YY", "DDD"], "basic", ("yoc", "doy")),
+        "b_-DDD": ([_D, "DDD"], "both", ("doy",)),
+        "b_YYWwwD": (["YY", "Www", "D"], "basic", ("yoc", "week", "wday")),
+        "b_YYWww": (["YY", "Www"], "basic", ("yoc", "week")),
+        "b_-zWwwD": ([_D, "z", "Www", "D"], "basic", ("zdec", "week", "wday")),
+        "b_-zWww": ([_D, "z", "Www"], "basic", ("zdec", "week")),
+        "b_-WwwD": ([_D, "Www", "D"], "basic", ("week", "wday")),
+        "b_-Www": ([_D, "Www"], "basic", ("week",)),
+        "b_-W-D": ([_D, W, _D, "D"], "basic", ("wday",)),
+        "e_-YY-MM": ([_D, "YY", _D, "MM"], "extended", ("yoc", "month")),
+        "e_--MM-DD": ([D2, "MM", _D, "DD"], "extended", ("month", "day")),
+        "e_YY-MM-DD": (["YY", _D, "MM", _D, "DD"], "extended", ("yoc", "month", "day")),
+        "e_YY-DDD": (["YY", _D, "DDD"], "extended", ("yoc", "doy")),
+        "e_YY-Www-D": (["YY", _D, "Www", _D, "D"], "extended", ("yoc", "week", "wday")),
+        "e_YY-Www": (["YY", _D, "Www"], "extended", ("yoc", "week")),
+        "e_-z-WwwD": ([_D, "z", _D, "Www", "D"], "extended", ("zdec", "week", "wday")),
+        "e_-z-Www": ([_D, "z", _D, "Www"], "extended", ("zdec", "week")),
+        "e_-Www-D": ([_D, "Www", _D, "D"], "extended", ("week", "wday")),
+    }
+
+
+def truncated_time_forms():
+    """name -> (tokens, kind, fields spelled, fraction token or None)"""
+    forms = {
+        "b_-mmss": ([_D, "mm", "ss"], "basic", ("m", "s"), None),
+        "x_-mm": ([_D, "mm"], "both", ("m",), None),
+        "x_--ss": ([lit("--"), "ss"], "both", ("s",), None),
+        "e_-mm:ss": ([_D, "mm", _C, "ss"], "extended", ("m", "s"), None),
+    }
+    for sep, sn in ((",", "c"), (".", "p")):
+        s = lit(sep)
+        forms["b_-mmss_f" + sn] = ([_D, "mm", "ss", s, "fs"], "basic", ("m", "s"), "fs")
+        forms["x_-mm_f" + sn] = ([_D, "mm", s, "fm"], "both", ("m",), "fm")
+        forms["x_--ss_f" + sn] = ([lit("--"), "ss", s, "fs"], "both", ("s",), "fs")
+        forms["e_-mm:ss_f" + sn] = ([_D, "mm", _C, "ss", s, "fs"], "extended", ("m", "s"), "fs")
+    return forms
